@@ -218,6 +218,12 @@ class ZeroLinearOperator(LinearOperator):
     ) -> Union[Float[Tensor, "... N P"], Float[Tensor, "... N"], Float[Tensor, "... O P"], Float[Tensor, "... O"]]:
         raise RuntimeError("ZeroLinearOperators are not invertible!")
 
+    def sum(self, dim: Optional[int] = None) -> Union[LinearOperator, torch.Tensor]:
+        if dim is None:
+            # (self @ ones) is a ZeroLinearOperator rather than a tensor, so the generic sum() would call itself
+            return torch.zeros((), dtype=self._dtype, device=self._device)
+        return super().sum(dim)
+
     @cached
     def to_dense(self: Float[LinearOperator, "*batch M N"]) -> Float[Tensor, "*batch M N"]:
         return torch.zeros(*self.sizes, dtype=self._dtype, device=self._device)
